@@ -54,6 +54,7 @@ func runC07(c *Ctx) {
 	c.rule("V6", "a method of the filesystem that is handed an already opened file consults the closed guard before it touches that handle: a handle taken before Close() serves nothing afterwards", 4)
 	c.rule("V7", "where the guard found the filesystem closed, the error returned is the guard's own ('failed condition'), not a fresh error of another kind", 30)
 	c.rule("Z5", "legal names are not refused: the zip-slip tests of the extraction look for path elements equal to \"..\", never for the substring (a..b.txt, ..leading and trailing.. are names the zip side produces)", 1)
+	c.rule("Z9", "zip walker: the source directory is recognised whatever its spelling (relative path \".\", or comparison with a cleaned source)", 1)
 	c.rule("Z8", "zip: the outcome of closing the zip writer (which flushes the entries and writes the central directory) and the archive file reaches the error result", 2)
 	c.rule("Z7", "zip: the archive is written into a handle that starts empty (CreateFile, or OpenFile with O_TRUNC / O_EXCL) — a shorter archive written over a longer one keeps the old central directory at its end", 1)
 	c.rule("Z6", "extraction: the name of an entry — a path relative to the archive — is never handed to the filesystem as it is (it would be resolved against the working directory of the process); the filesystem only sees the sanitised extraction path", 1)
@@ -505,8 +506,23 @@ func (c *Ctx) c07ZipWalker() {
 			if !ok || b.Op.String() != "==" {
 				return false
 			}
-			return (stripConv(b.X) == ssa.Value(pathParam) && strings.Contains(resolveFreeVarName(b.Y), "source")) ||
-				(stripConv(b.Y) == ssa.Value(pathParam) && strings.Contains(resolveFreeVarName(b.X), "source"))
+			if (stripConv(b.X) == ssa.Value(pathParam) && strings.Contains(resolveFreeVarName(b.Y), "source")) ||
+				(stripConv(b.Y) == ssa.Value(pathParam) && strings.Contains(resolveFreeVarName(b.X), "source")) {
+				return true
+			}
+			// … or: the path relative to the source is "."
+			for _, pair := range [][2]ssa.Value{{b.X, b.Y}, {b.Y, b.X}} {
+				if k, isK := constString(pair[1]); isK && k == "." {
+					for _, l := range sources(pair[0], deriveOpts{}) {
+						if ex, isEx := l.(*ssa.Extract); isEx && ex.Index == 0 {
+							if rc, isRC := ex.Tuple.(*ssa.Call); isRC && calleeFull(&rc.Call) == "path/filepath.Rel" && len(rc.Call.Args) == 2 && stripConv(rc.Call.Args[1]) == ssa.Value(pathParam) {
+								return true
+							}
+						}
+					}
+				}
+			}
+			return false
 		}
 		prune := func(b *ssa.BasicBlock, k int) bool {
 			ifi, ok := b.Instrs[len(b.Instrs)-1].(*ssa.If)
@@ -516,6 +532,50 @@ func (c *Ctx) c07ZipWalker() {
 			v, ts := boolTest(ifi)
 			return isRootTest(v) && k == ts
 		}
+		// Z9: the root is recognised whatever the spelling of the source: by its relative path, or by comparison with a
+		// cleaned source (the walk reports cleaned paths; "src/" never equals "src")
+		spellingFree := true
+		nRoot := 0
+		for _, b := range walker.Blocks {
+			ifi, ok := b.Instrs[len(b.Instrs)-1].(*ssa.If)
+			if !ok {
+				continue
+			}
+			v, _ := boolTest(ifi)
+			if !isRootTest(v) {
+				continue
+			}
+			nRoot++
+			bo := v.(*ssa.BinOp)
+			for _, o := range []ssa.Value{bo.X, bo.Y} {
+				if strings.Contains(resolveFreeVarName(o), "source") {
+					// the free variable's value in the enclosing function
+					cleaned := false
+					if u, isU := o.(*ssa.UnOp); isU {
+						o = u.X
+					}
+					if fv, isFV := o.(*ssa.FreeVar); isFV {
+						if rv := resolveFreeVar(fv); rv != nil {
+							for _, l := range sources(rv, deriveOpts{}) {
+								if cl, isCall := l.(*ssa.Call); isCall && (calleeFull(&cl.Call) == "path/filepath.Clean" || calleeFull(&cl.Call) == "path/filepath.Abs") {
+									cleaned = true
+								}
+								if ex, isEx := l.(*ssa.Extract); isEx {
+									if cl, isCall := ex.Tuple.(*ssa.Call); isCall && calleeFull(&cl.Call) == "path/filepath.Abs" {
+										cleaned = true
+									}
+								}
+							}
+						}
+					}
+					if !cleaned {
+						spellingFree = false
+					}
+				}
+			}
+		}
+		c.check(nRoot > 0 && spellingFree, "Z9", fname(walker)+"/root-whatever-its-spelling", c.pos(walker.Pos()), "the source itself is recognised by its relative path (or against a cleaned source)",
+			"the walker recognises the source directory by comparing the walked path — which the walk cleans — with the source as the caller spelt it: for \"src/\" the source gets an entry \"./\" of its own and the extraction lists the destination directory itself among the entries created")
 		esc := pathPruned(walker, nil, isHeader, func(in ssa.Instruction) bool { return isReturnOK(walker, in) }, prune)
 		c.check(esc == nil, "Z1", fname(walker)+"/every-entry", c.pos(walker.Pos()), "every walked entry except the root gets a header before the walker returns successfully",
 			"the walker can return successfully at "+c.iposOr(esc)+" without having written a header for the entry: that entry is missing from the archive")
